@@ -1,6 +1,6 @@
 (* C05 - circuits are isolated from each other and from third parties.  Property theorems only.
    Data plane: model/M04_onion.v; routing tables under control traffic: model/M05_isolation.v (after the
-   `fix:` commit that makes on_create refuse an id in use).  AEAD, key agreement and payload parsing abstract. *)
+   `fix:` commits that make on_create refuse an id in use and on_created refuse an already extended id).  AEAD, key agreement and payload parsing abstract. *)
 From Coq Require Import ZArith List Bool Lia.
 From IPV8V Require Import lib.PyErr lib.Bytes lib.BE model.M02_wire model.M03_recv model.M04_onion model.M04_harness
   model.M05_isolation model.M05_harness spec.S04_onion_spec spec.S05_isolation_spec
@@ -171,7 +171,7 @@ Print Assumptions timer_pops_only_scheduled.
 Theorem created_makes_inverse_pair :
   forall (key : Type) (c : cnode key) (src : addr) (cid ident : Z) (rq : create_cache) (es : exit_sock key),
   assoc ident (cn_create c) = Some rq -> assoc (cr_from rq) (n_exits (cn_tab c)) = Some es ->
-  cr_to rq <> cr_from rq ->
+  has (cr_from rq) (n_relays (cn_tab c)) = false -> cr_to rq <> cr_from rq ->
   let c' := fst (on_created c src cid ident) in
   exists fw bw,
     assoc (cr_from rq) (n_relays (cn_tab c')) = Some fw /\ assoc (cr_to rq) (n_relays (cn_tab c')) = Some bw /\
@@ -182,6 +182,17 @@ Theorem created_makes_inverse_pair :
     In (PExit (cr_from rq)) (cn_pending c').
 Proof. exact created_makes_inverse_pair_l. Qed.
 Print Assumptions created_makes_inverse_pair.
+
+(* a created - genuine, stale, duplicated or forged - never changes an existing relay entry: the routes of an
+   established circuit cannot be redirected by a late answer to an abandoned extend (after the `fix:` commit
+   "a stale created rewrites the forward route of an already extended circuit") *)
+Theorem created_never_overwrites_relay :
+  forall (key : Type) (c : cnode key) (src : addr) (cid ident : Z),
+  tables_ok c ->
+  forall x r, assoc x (n_relays (cn_tab c)) = Some r ->
+              assoc x (n_relays (cn_tab (fst (on_created c src cid ident)))) = Some r.
+Proof. exact created_never_overwrites_relay_l. Qed.
+Print Assumptions created_never_overwrites_relay.
 
 (* tables_inv: over every history of cells (any bytes), creates, createds, extends, destroys (signed or not,
    from anybody), local removals, timer ticks, cache expiries and the node's own circuit business, the tables
